@@ -103,6 +103,7 @@ type fakeMsg struct {
 	wake     chan struct{}
 	event    chan struct{}
 	hookLocks bool
+	hookSleep time.Duration
 	hookGate  chan struct{} // when set: the hook signals its entry on hookIn and waits for hookGate to be closed
 	hookIn    chan struct{}
 }
@@ -121,6 +122,9 @@ func (m *fakeMsg) hook(kind string) func(context.Context) error {
 			return m.hookErr
 		}
 		m.n.rec("hook")
+		if m.hookSleep > 0 {
+			time.Sleep(m.hookSleep)
+		}
 		if m.hookGate != nil {
 			select {
 			case m.hookIn <- struct{}{}:
@@ -139,7 +143,7 @@ func (m *fakeMsg) hook(kind string) func(context.Context) error {
 }
 func (m *fakeMsg) Descriptor() *descriptor.Message { return m.desc }
 func (m *fakeMsg) Reset()                          { m.acc("Reset") }
-func (m *fakeMsg) String() string                  { return "fake" }
+func (m *fakeMsg) String() string                  { m.acc("String"); return "fake" } // formatting a message reads its state
 func (m *fakeMsg) Frame() can.Frame {
 	m.acc("Frame")
 	var d can.Data
@@ -217,6 +221,73 @@ func (t *recTx) TransmitFrame(_ context.Context, f can.Frame) error {
 		return errors.New("bus off")
 	}
 	return nil
+}
+
+// execRtxSlow: a before-transmit hook that takes longer than the message's send timeout (its cycle time) and a
+// transmitter that honours its context: the accepted request must still produce exactly one frame (the send
+// timeout bounds the transmission, not the hook).  rtxslow <cycle ms> <hook ms>
+func execRtxSlow(a []string) string {
+	return withTimeout(8*time.Second, func() string {
+		cycle := time.Duration(U(a[0])) * time.Millisecond
+		hookDur := time.Duration(U(a[1])) * time.Millisecond
+		n := &fakeNode{}
+		m := &fakeMsg{n: n, desc: &descriptor.Message{Name: "TxMsg", ID: 7, SendType: descriptor.SendTypeEvent, CycleTime: cycle},
+			wake: make(chan struct{}, 1), event: make(chan struct{}), hookLocks: true, hookSleep: hookDur}
+		tx := &ctxTx{recTx: recTx{n: n, fail: map[int]bool{}}}
+		ctx, cancel := context.WithCancel(context.Background())
+		defer cancel()
+		done := make(chan error, 1)
+		go func() { done <- canrunner.RunMessageTransmitter(ctx, tx, n, m, nil2clock()) }()
+		select {
+		case m.event <- struct{}{}:
+		case err := <-done:
+			return "ended-before-request " + errClass(err)
+		case <-time.After(3 * time.Second):
+			return "TIMEOUT-request-not-accepted"
+		}
+		res := "nil"
+		if !waitFor(func() bool { return n.count("tx") >= 1 }) {
+			res = "no-transmission"
+		}
+		cancel()
+		select {
+		case err := <-done:
+			if err != nil {
+				res = errClass(err)
+			}
+		case <-time.After(3 * time.Second):
+			return "TIMEOUT-cancel"
+		}
+		tx.mu.Lock()
+		nf := 0
+		for i := range tx.frames {
+			if !tx.late[i] {
+				nf++
+			}
+		}
+		tx.mu.Unlock()
+		return fmt.Sprintf("%s %s frames=%d", res, viols(n), nf)
+	})
+}
+
+// ctxTx: a transmitter that, like socketcan.Transmitter, fails when its context is already done
+type ctxTx struct {
+	recTx
+	late map[int]bool
+}
+
+func (t *ctxTx) TransmitFrame(ctx context.Context, f can.Frame) error {
+	if err := ctx.Err(); err != nil {
+		t.mu.Lock()
+		if t.late == nil {
+			t.late = map[int]bool{}
+		}
+		t.late[len(t.frames)] = true
+		t.mu.Unlock()
+		_ = t.recTx.TransmitFrame(ctx, f)
+		return fmt.Errorf("transmit frame: %w", err)
+	}
+	return t.recTx.TransmitFrame(ctx, f)
 }
 
 func withTimeout(d time.Duration, f func() string) string {
@@ -760,6 +831,8 @@ func genC14(g *G) {
 	}
 	g.Emit("rrx -")
 	g.Emit("rrx - rxerr")
+	g.Emit("rtxslow 25 80")
+	g.Emit("rtxslow 50 150")
 	// transmitter: all event sequences up to length 3 over the alphabet, then sampled longer ones
 	alpha := []string{"e", "w1", "w0", "c", "eH", "eT"}
 	var rec func(prefix []string, depth int)
@@ -818,4 +891,5 @@ func init() {
 	RegExec("rrun", execRrun)
 	RegExec("rrun2", execRrun2)
 	RegExec("rrun3", execRrun3)
+	RegExec("rtxslow", execRtxSlow)
 }
